@@ -333,7 +333,45 @@ _B = ('2-registry chain; every set of <=%s registrations/subscriptions from 28 (
       'and without default, lookup1, adapter_hook, queryAdapter, queryMultiAdapter, lookupAll, subscriptions); keys: 4 objects + a super '
       'proxy x 2 provided x 2 names from both registries, object pairs, arity 0; non-string names 42 / None / b"n" cold and warm')
 
+def make_e_after_base_change(params, part, nparts):
+    """The entry points agree with each other when each of them is the *first* one asked after a registry behind the front one changed
+    (verifying chains: every entry point has to notice the change by itself).  Programs of vlib.traceprog family 'snap'."""
+    from vlib import traceprog as TP
+    names = ['lookup', 'lookup1', 'queryAdapter', 'adapter_hook', 'lookupAll', 'names', 'subscriptions', 'lookup(arity 2)']
+
+    def run(prog):
+        tr = TP.run_snap(prog)
+        if tr is None:
+            return False
+        a = tr['after']
+        what = 'chain of %d VerifyingAdapterRegistry, %s in registry #%d, caches %s, %s asked first afterwards' % (
+            prog[0], TP.SNAP_MUT[prog[2]], prog[1], 'warm' if prog[3] else 'cold', names[prog[4]])
+        if a[0] != a[1]:
+            raise Violation('%s: lookup answers %s, lookup1 %s' % (what, a[0], a[1]), signature='C08:after-base-change:lookup1')
+        if a[2] != a[3] and not (a[2].startswith('raise') and a[3].startswith('raise')):
+            raise Violation('%s: queryAdapter answers %s, adapter_hook %s' % (what, a[2], a[3]), signature='C08:after-base-change:queryAdapter')
+        if ("''" in a[5]) != (a[0] != 'None'):
+            raise Violation('%s: names() is %s although lookup answers %s' % (what, a[5], a[0]), signature='C08:after-base-change:names')
+        return True
+
+    def h(L: int, k: int, m: int, w: int, f: int):
+        cL = pick(L, 3) + 2
+        ck = pick(k, 3) + 1
+        assume(ck < cL)
+        prog = [cL, ck, pick(m, len(TP.SNAP_MUT)), pick(w, 2), pick(f, 8)]
+        ok = native(run, prog)
+        assume(ok)
+        reached(tuple(prog), dict(program=prog))
+    return h
+
+
 HARNESSES = [
+    Harness('e_after_base_change', make_e_after_base_change, kind='E', impls=('py', 'c'),
+            tiers=dict(quick=dict(budget_s=30, parts=1), thorough=dict(budget_s=60, parts=1)),
+            encoded=['zope.interface.adapter:VerifyingBaseFallback._verify', 'zope.interface._zope_interface_coptimizations:VerifyingBase'],
+            bounds='chains of 2..4 VerifyingAdapterRegistry; one of 7 mutations in a registry behind the front one; caches warm or cold; each of '
+                   'the 8 entry points asked first afterwards, the others after it; both builds',
+            oracle='lookup == lookup1, queryAdapter == adapter_hook, names() lists the unnamed registration iff lookup finds it'),
     Harness('e_entry_adapter', make_e, kind='E', impls=('py', 'c'),
             tiers=dict(quick=dict(budget_s=150, parts=14, params=dict(L=1)),
                        thorough=dict(budget_s=3000, parts=14, params=dict(L=2))),
